@@ -81,6 +81,15 @@ class NoRun(object):
     pass
 
 
+class RunNotCallable(object):
+    """has a `run` attribute that is not callable (like the None-valued method slots of lena's own adapters)"""
+    run = None
+
+
+class RunIsData(object):
+    run = 5
+
+
 def build_stage(st, pairs=True, use_context_el=False):
     """One fresh real element for a stage descriptor."""
     import lena.core, lena.flow, lena.math, lena.context, lena.variables, lena.output
@@ -122,7 +131,8 @@ def build_stage(st, pairs=True, use_context_el=False):
     if t == "split":
         return lena.core.Split([build_stage(b, pairs, use_context_el) for b in st["brs"]], bufsize=st["bs"])
     if t == "bad":
-        return {"int": 5, "str": "abc", "obj": NoRun(), "none": None, "dict": {}}[st["k"]]
+        return {"int": 5, "str": "abc", "obj": NoRun(), "none": None, "dict": {},
+                "runnone": RunNotCallable(), "rundata": RunIsData()}[st["k"]]
     raise ValueError("unknown stage %r" % (st,))
 
 
@@ -176,6 +186,14 @@ def time_limit(seconds):
 @contextlib.contextmanager
 def quiet():
     with contextlib.redirect_stdout(io.StringIO()):
+        yield
+
+
+@contextlib.contextmanager
+def quiet_warnings():
+    import warnings
+    with warnings.catch_warnings():
+        warnings.simplefilter("ignore")
         yield
 
 
